@@ -7,6 +7,7 @@ HeadsAll == {"bare", "qualified", "unconfigured", "prefix", "suffix", "othermod"
              "linecomment", "blockcomment", "doccomment", "instring"}
 TargetsAll == {"none", "plain", "comma", "escquote"}
 TargetsTwo == {"none", "plain"}
+TargetsCompile == TargetsAll \cup ExprTargets
 KvPlain == {"int", "id", "str", "strsemi", "short", "dbg", "debug", "disp", "display", "shortdbg"}
 KvFew == {"int", "strsemi", "short", "dbg"}
 KvParseOnly == {"err", "sval", "serde"}
